@@ -74,6 +74,7 @@ REQUIRED = {"psin_nonneg": 20000, "psin_clamp_decisive": 20, "psin_def": 20000, 
 SAFETY = 8.0          # factor on the computed discretisation bounds (their constants are worst-case estimates)
 EDGE_EXCL = 1e-6      # undecidable band around LCFS polygon edges / psi_n = 1
 NPTS = 82
+CHORD_EPS = 1e-12    # 'on an internal triangulation edge': the cracks of the mesh point location are ~1e-16 m wide
 COS_MIN = 0.8        # orientation only: np.gradient-vs-interpolant deviations reach 11 % of max|B_pol| (asin(0.11/0.3) = 21 deg)
 
 _CACHE = {}
@@ -423,6 +424,19 @@ def fixed_cases(tier):
         pts = _gen_points(rng, G, NPTS)
         out.append(core.jsonable(dict(eq=eq, profile=prof, outside=[None, 0.0, -7.5, 250.0][k % 4], vel=vel,
                                       points=pts, special3d=_gen_special3d(rng, pts), seq=_gen_seq(rng))))
+    # regression case of the open finding inside_lcfs:point-on-triangulation-chord-reported-outside (mirrored octagon, a
+    # sample point with exactly the z of a polygon vertex, 0.46 mm inside the polygon)
+    rng = np.random.default_rng([12, 99, 100])
+    eq = {"kind": "solovev", "poly_mode": "mirror", "poly_roll": 116, "poly_f": [0.44912825686919233, 0.28596337104531283, 0.8464236859274872, 0.5285553894229442],
+          "R0": 2.5874069487367644, "a": 0.6018980031356884, "kappa": 1.0542013476370993, "tau": 0.0, "Z0": 0.19266150012416083,
+          "psi_axis": 0.7482321631155031, "psi_lcfs": 0.9721311856379888, "psi_axis_eq": 0.7482321631155031, "nr": 44, "nz": 33,
+          "rmin": 1.565043587803694, "rmax": 3.236014985933917, "zmin": -0.5547990018712647, "zmax": 1.1552733258505905, "poly_n": 8,
+          "poly_scale": 0.9394329776446713, "poly_t0": 6.242180355638638, "poly_reverse": True, "f_edge": -4.213018891133002,
+          "f_alpha": -0.051526833207879985, "f_knots": 14, "r_vac": 2.087662133248533, "limiter": False}
+    pts = _gen_points(rng, _geom(eq), NPTS)
+    pts.append([1.9928034115338025, -0.03545249549887075, 0.3, -2.0, "polygon_edge"])
+    out.append(core.jsonable(dict(eq=eq, profile=_gen_profile(rng), outside=-3.0, vel=dict(tor=_gen_profile(rng, 1e3), pol=_gen_profile(rng, 1e2),
+                                  nor=_gen_profile(rng, 10.0), outside=None), points=pts, special3d=_gen_special3d(rng, pts), seq=_gen_seq(rng))))
     return out
 
 
@@ -800,6 +814,29 @@ def _run(case, ctx):
         k = int(np.argmin(okv))
         ctx.viol("inside_lcfs:value-not-0-or-1", "inside_lcfs returned a value other than 0 or 1", r=R[k], z=Z[k], got=mask[k])
     bad = dec & okv & ((mask == 1.0) != inside)
+    # Known mechanism with its own key: the polygon mask is a triangulated mesh whose point location has no tolerance,
+    # so an inside point within rounding distance of an internal triangulation edge (a chord between two polygon
+    # vertices) can be reported outside.  Such rows are reported under that key and taken out of the mask-dependent
+    # comparisons below (their map values follow the wrong mask).
+    cand = bad & inside
+    if cand.any():
+        chord = np.zeros(n, bool)
+        ii, jj = np.triu_indices(len(vx), 1)
+        ax_, ay_, bx_, by_ = vx[ii], vy[ii], vx[jj], vy[jj]
+        L = np.hypot(bx_ - ax_, by_ - ay_) + 1e-300
+        for k in np.flatnonzero(cand):
+            dist = np.abs((bx_ - ax_) * (Z[k] - ay_) - (by_ - ay_) * (R[k] - ax_)) / L
+            chord[k] = bool(dist.min() <= CHORD_EPS)
+        if chord.any():
+            k = int(np.argmax(chord))
+            ctx.viol("inside_lcfs:point-on-triangulation-chord-reported-outside",
+                     "point strictly inside the LCFS polygon (psi_n <= 1) but within rounding distance of a chord between two "
+                     "polygon vertices (internal triangulation edge) reported outside",
+                     r=R[k], z=Z[k], psin=psin[k], polygon_distance=pd[k], n_bad=int(chord.sum()))
+            bad = bad & ~chord
+            dec = dec & ~chord
+            dec3 = dec3 & ~chord
+            ctx.skips["inside point on a triangulation chord misreported by the polygon mask (known finding)"] += int(chord.sum())
     if bad.any():
         for cond, key, what in (
                 (bad & pin & (psin > 1.0), "inside_lcfs:polygon-inside-psin-gt-1-reported-inside", "point inside the polygon with psi_n > 1 reported inside the LCFS"),
